@@ -114,7 +114,7 @@ macro "wl_step" : tactic => `(tactic| (
   · rename_i b' hb
     simp only [Option.some.injEq] at h
     subst h
-    (try simp only [curAfter, lastAfter, isRcv, tidOf, touches, Bool.false_and, Bool.true_and, Bool.or_false,
+    (try simp only [curAfter, lastAfter, starterAfter, isRcv, tidOf, touches, Bool.false_and, Bool.true_and, Bool.or_false,
       Bool.and_true, Bool.and_false, Bool.false_eq_true, if_false, if_true, reduceIte])
     simp only [WhenAll.step] at hb
     repeat' split at hb
@@ -238,5 +238,95 @@ theorem touch_own (s : St) (b' : WhenAll.St) (e : Ev) (h1 : W1 s.b) (h2 : W2 s.b
   obtain ⟨l0,l1,l2,l3,l4,l5,l6,l7,l8,l9⟩ := hl
   simp only [actor] at hact
   cases e <;> wt_step
+
+
+/-- The complete invariant for `n > 0`. -/
+structure Full (s : St) : Prop where
+  winv : WInv s.b
+  a : A s.b
+  linv : LInv s
+  noUaf : s.uaf = false
+
+theorem full_init (c : Cfg) (n : Nat) (hn : n ≠ 0) : Full (init c n) :=
+  ⟨winv_init n, a_init n, linv_init c n hn, rfl⟩
+
+theorem step_full (s s' : St) (e : Ev) (hf : Full s) (h : step s e = some s') : Full s' := by
+  obtain ⟨hw, ha, hl, hu⟩ := hf
+  obtain ⟨hb, _, huaf⟩ := step_proj s s' e hl.npos h
+  refine ⟨step_winv _ _ e hw hb, step_a _ _ e ha hb, step_linv s s' e hw.w1 hw.w2 hl h, ?_⟩
+  rw [huaf, hu, Bool.false_or]
+  cases hfr : s.freed with
+  | false => rfl
+  | true =>
+    cases ht : touches e with
+    | false => rfl
+    | true =>
+      exfalso
+      have hd := (hl.freedIff.mp hfr).2
+      have hz : s.b.remaining = 0 := by
+        rcases hw.w2.delOnce with h0 | ⟨_, hz⟩
+        · omega
+        · exact hz
+      have hlast := (touch_after_zero s s'.b e hw.w1 hw.w2 hw.cnt ha hl hb ht hz).1
+      have := (hw.w2.lastPc _ hlast).2.2
+      omega
+
+theorem n_init (c : Cfg) (n : Nat) : (init c n).b.n = n := rfl
+
+theorem full_of_accepted {c : Cfg} {n : Nat} (hn : n ≠ 0) {log : List Ev} {s : St}
+    (h : runLog step (init c n) log = some s) : Full s :=
+  inv_of_runLog Full (fun s e s' => step_full s s' e) (full_init c n hn) h
+
+theorem step_n (b b' : WhenAll.St) (e : Ev) (hs : WhenAll.step b e = some b') : b'.n = b.n := by
+  cases e <;> simp only [WhenAll.step] at hs <;> (repeat' split at hs) <;>
+    first
+    | (simp at hs; done)
+    | (simp only [Option.some.injEq] at hs; subst hs; (try (simp only [afterCall]; split)) <;> rfl)
+
+/-- Projection: an accepted log of the layer is an accepted log of the protocol model (`n > 0`). -/
+theorem runLog_proj : ∀ (log : List Ev) (s0 s : St), s0.b.n ≠ 0 →
+    runLog step s0 log = some s → runLog WhenAll.step s0.b log = some s.b
+  | [], s0, s, _, h => by simp at h; subst h; rfl
+  | e :: es, s0, s, h0, h => by
+    simp only [runLog] at h ⊢
+    cases hs : step s0 e with
+    | none => simp [hs] at h
+    | some s1 =>
+      simp only [hs] at h
+      obtain ⟨hb, _, _⟩ := step_proj s0 s1 e h0 hs
+      rw [hb]
+      have hn1 := step_n _ _ e hb
+      exact runLog_proj es s1 s (by omega) h
+
+/-! ### `when_all_vector` without predecessors -/
+
+structure ZInv (s : St) : Prop where
+  nz : s.b.n = 0
+  vec : s.cfg.vector = true
+  del : s.b.delivered = 0 ∨ s.b.delivered = 1
+  delRes : s.b.delivered = 1 → s.b.result = some (0, 0) ∧ s.started = true ∧ s.issuerT = some s.starterT
+  startedPc : s.started = true → s.b.delivered = 0 → s.b.pc s.starterT = .starting
+  pcStarted : ∀ t, s.b.pc t = .starting → s.started = true ∧ t = s.starterT
+  freedIff : s.freed = true ↔ (s.cfg.selfdel = true ∧ s.b.delivered = 1)
+  nfreeEq : s.nfree = b2n s.freed
+  noChild : s.lastC = none ∧ s.issuer = none
+  noUaf : s.uaf = false
+
+theorem zinv_init (c : Cfg) (hv : c.vector = true) : ZInv (init c 0) := by
+  constructor <;> simp [init, WhenAll.init, b2n, hv]
+
+theorem step_zinv (s s' : St) (e : Ev) (hz : ZInv s) (h : step s e = some s') : ZInv s' := by
+  obtain ⟨z0,z1,z2,z3,z4,z5,z6,z7,z8,z9⟩ := hz
+  simp only [step, z0, z1, if_true] at h
+  cases e <;> simp only [step0] at h <;> (try (simp at h; done)) <;>
+  ( split at h
+    · simp only [Option.some.injEq] at h
+      subst h
+      constructor <;> dsimp only <;> first | assumption | (intro u; grind [upd]) | grind [upd]
+    · simp at h)
+
+theorem zinv_of_accepted {c : Cfg} (hv : c.vector = true) {log : List Ev} {s : St}
+    (h : runLog step (init c 0) log = some s) : ZInv s :=
+  inv_of_runLog ZInv (fun s e s' => step_zinv s s' e) (zinv_init c hv) h
 
 end PikaVerif.WhenAllLife
